@@ -8,6 +8,7 @@ import (
 	"encoding/hex"
 	"errors"
 	"fmt"
+	"github.com/bartventer/httpcache/verifsim/simclock"
 	"io"
 	"log/slog"
 	"net/http"
@@ -1031,6 +1032,10 @@ func (r *Run) admin(g *kit.Gor, op *Op) {
 		r.rt = rt
 		r.Restarts++
 		r.mu.Unlock()
+	case "clock-step":
+		simclock.Step(time.Duration(op.AdminArg) * time.Second)
+		r.fired("clock.step")
+		r.Sim.Event(g, "admin.clock-step", fmt.Sprintf("%+ds (offset now %s)", op.AdminArg, simclock.Offset()))
 	case "evict":
 		// something outside the transport removes one stored entry (the cleanup job the file-system backend's
 		// documentation recommends, or DELETE through the maintenance API): its index record now dangles
